@@ -142,6 +142,24 @@ Theorem C12_by_spanning_tree_extents : forall cs, wf_exts cs -> forall t enum k,
 Proof. exact by_spanning_tree_extents. Qed.
 Print Assumptions C12_by_spanning_tree_extents.
 
+(* is_concepts_sorted=True: [rank] is the index; the hypothesis on the listing is "topological"
+   (forall i j, lt i j -> j listed before i), nothing about supports *)
+Theorem C12_by_spanning_tree_extents_sorted : forall cs, wf_exts cs -> forall t enum k,
+  is_top (cs_lt cs) (length cs) t ->
+  (forall i j, i < length cs -> j < length cs -> cs_lt cs i j = true -> j < i) ->
+  (forall l x, In x (enum l) <-> In x l) ->
+  (match k with Some j => 1 <= j | None => True end) ->
+  exists m, by_spanning_tree (cs_lt cs) (cs_rank cs true) (length cs) enum k = Done m /\
+            forall y, y < length cs -> same_set (m y) (lower_covers (incl_lt cs) (length cs) y).
+Proof. exact by_spanning_tree_extents_sorted. Qed.
+Print Assumptions C12_by_spanning_tree_extents_sorted.
+
+Theorem C12_complete_comparison_extents_sorted : forall cs, wf_exts cs -> forall a,
+  (forall i j, i < length cs -> j < length cs -> cs_lt cs i j = true -> j < i) -> a < length cs ->
+  complete_comparison (cs_lt cs) (length cs) true a = lower_covers (incl_lt cs) (length cs) a.
+Proof. exact complete_comparison_extents_sorted. Qed.
+Print Assumptions C12_complete_comparison_extents_sorted.
+
 Theorem C12_complete_comparison_extents : forall cs, wf_exts cs -> forall a, a < length cs ->
   complete_comparison (cs_lt cs) (length cs) false a = lower_covers (incl_lt cs) (length cs) a.
 Proof. exact complete_comparison_extents. Qed.
